@@ -55,8 +55,8 @@ func checkC02(c *core.Ctx) {
 		n := len(oc.In)
 		for mask := 1; mask < 1<<n; mask++ {
 			for vi := 0; vi < 2; vi++ {
-				for wi := 0; wi < 3; wi++ {
-					if wi == 2 && vi == 1 {
+				for wi := 0; wi < 6; wi++ {
+					if wi >= 2 && vi == 1 {
 						continue
 					}
 					mask, vi, wi := mask, vi, wi
@@ -121,6 +121,24 @@ func c02Run(oc OpCase, in []*ref.T, mask int, wi int) core.Verdict {
 		}
 		if len(w.V)%2 == 1 {
 			w.V[len(w.V)-1] = 0
+		}
+	} else if wi >= 3 {
+		// further upstream gradients: a single non-zero entry (last position), all negative, zero "rows" (every other entry 0)
+		p, root = withWeighting(p, root, 9)
+		w := p.Leaves[len(p.Leaves)-1]
+		for i := range w.V {
+			switch wi {
+			case 3:
+				if i != len(w.V)-1 {
+					w.V[i] = 0
+				}
+			case 4:
+				w.V[i] = -math.Abs(w.V[i])
+			case 5:
+				if i%2 == 0 {
+					w.V[i] = 0
+				}
+			}
 		}
 	}
 	v := gradCase(p, root, gradOpts{})
